@@ -51,12 +51,25 @@ def edit_mutation(draw, base: bytes, inset: bytes, nearset: bytes = b"", max_edi
     return bytes(s), kinds
 
 
+# lambda with lambda*(x, y) = (beta*x, y): scalars around it make double-and-add meet two different points with equal y
+LAMBDA = 0x5363AD4CC05C30E0A5261C028812645A122E22EA20816678DF02967C1B23BD72
+LAMBDA2 = LAMBDA * LAMBDA % N  # = n - 1 - lambda
+ENDO = sorted({(b * m + c) % N for b in (LAMBDA, LAMBDA2) for m in (1, 2, 4) for c in (-1, 0, 1, 2, 3)} - {0})
+# scalars whose leading bits are those of a value congruent to a small number mod n (an accumulator that equals +-P, 2P)
+WRAP = [N + 2, N + 3, 2 * N + 1, 2 * N + 2, 2 * N + 3, (N + 1) // 2, (N - 1) // 2, (N + 1) // 2 + 1]
+
+
 def scalars_any():
     """Integers biased to the secp256k1 boundaries, 0 <= k < 2^256 (+ a few above)."""
     special = [0, 1, 2, 3, N - 2, N - 1, N, N + 1, 2 * N - 1, 2**256 - 1, N // 2, N // 2 + 1, P, P - 1]
     special += [1 << k for k in (8, 64, 128, 255)] + [(1 << k) - 1 for k in (8, 64, 128, 255, 256)]
+    special += ENDO + [w for w in WRAP if w < 2**256]
     return st.one_of(
         st.sampled_from(special),
+        # a special value followed by a few more bits (what a left-to-right ladder sees as a prefix)
+        st.tuples(st.sampled_from(ENDO + WRAP + [N - 1, N, N + 1]), st.integers(1, 6)).flatmap(
+            lambda t: st.integers(0, (1 << t[1]) - 1).map(lambda r: ((t[0] << t[1]) | r) % 2**256)
+        ),
         st.integers(1, 31).flatmap(lambda z: st.integers(1, (1 << (8 * (32 - z))) - 1)),
         st.integers(0, 2**256 - 1),
     )
@@ -65,7 +78,9 @@ def scalars_any():
 def scalars_valid():
     """Private-key-like scalars in [1, n-1], biased to boundaries and leading zero bytes."""
     special = [1, 2, 3, N - 2, N - 1, N // 2, N // 2 + 1, 1 << 255, (1 << 255) - 1, 0xFF, 0x100]
+    special += ENDO + [w for w in WRAP if w < N]
     return st.one_of(
+        st.sampled_from(special),
         st.sampled_from(special),
         st.integers(1, 31).flatmap(lambda z: st.integers(1, (1 << (8 * (32 - z))) - 1)),
         st.integers(1, N - 1),
